@@ -89,87 +89,96 @@ func throttleAtom(v ssa.Value) (string, bool, bool) { // atom, negated, ok
 }
 
 // gWalk follows fn from instruction index i of block b under the assignment a until a
-// return or a cond.Wait; it reports whether the consuming store is executed.
+// return or a cond.Wait; it reports whether the consuming store can be executed. A
+// branch on anything other than the three facts is followed both ways.
 func gWalk(b *ssa.BasicBlock, i int, a gAtoms, consume func(ssa.Instruction) bool) (consumed bool, decided bool) {
-	var prev *ssa.BasicBlock
-	phis := map[ssa.Value]bool{}
-	var eval func(v ssa.Value) (bool, bool)
-	eval = func(v ssa.Value) (bool, bool) {
-		if c, ok := path.BoolConst(v); ok {
-			return c, true
-		}
-		if r, ok := phis[v]; ok {
-			return r, true
-		}
-		if u, ok := v.(*ssa.UnOp); ok && u.Op == token.NOT {
-			r, ok := eval(u.X)
-			return !r, ok
-		}
-		atom, neg, ok := throttleAtom(v)
-		if !ok {
-			return false, false
-		}
-		var r bool
-		switch atom {
-		case "stop":
-			r = a.stop
-		case "waiting":
-			r = a.waiting
-		case "elapsed":
-			r = a.elapsed
-		}
-		return r != neg, true
+	type state struct {
+		b    *ssa.BasicBlock
+		i    int
+		prev *ssa.BasicBlock
 	}
-	for steps := 0; steps < 200; steps++ {
-		moved := false
-		for ; i < len(b.Instrs); i++ {
-			in := b.Instrs[i]
+	seen := map[state]bool{}
+	decided = true
+	var walk func(st state, phis map[ssa.Value]bool, depth int)
+	walk = func(st state, phis map[ssa.Value]bool, depth int) {
+		if depth > 64 || seen[st] {
+			if depth > 64 {
+				decided = false
+			}
+			return
+		}
+		seen[st] = true
+		var eval func(v ssa.Value) (bool, bool)
+		eval = func(v ssa.Value) (bool, bool) {
+			if c, ok := path.BoolConst(v); ok {
+				return c, true
+			}
+			if r, ok := phis[v]; ok {
+				return r, true
+			}
+			if u, ok := v.(*ssa.UnOp); ok && u.Op == token.NOT {
+				r, ok := eval(u.X)
+				return !r, ok
+			}
+			atom, neg, ok := throttleAtom(v)
+			if !ok {
+				return false, false
+			}
+			var r bool
+			switch atom {
+			case "stop":
+				r = a.stop
+			case "waiting":
+				r = a.waiting
+			case "elapsed":
+				r = a.elapsed
+			}
+			return r != neg, true
+		}
+		b, prev := st.b, st.prev
+		for k := st.i; k < len(b.Instrs); k++ {
+			in := b.Instrs[k]
 			if consume(in) {
 				consumed = true
 			}
 			switch x := in.(type) {
 			case *ssa.Phi:
-				for k, p := range b.Preds {
+				for e, p := range b.Preds {
 					if p == prev {
-						if r, ok := eval(x.Edges[k]); ok {
+						if r, ok := eval(x.Edges[e]); ok {
 							phis[x] = r
+						} else {
+							delete(phis, x)
 						}
 					}
 				}
 			case *ssa.Call:
 				if callee := x.Call.StaticCallee(); callee != nil && callee.Name() == "Wait" && callee.Signature.Recv() != nil {
-					return consumed, true
+					return
 				}
 			case *ssa.If:
 				r, ok := eval(x.Cond)
-				if !ok {
-					return consumed, false
+				for idx, sc := range b.Succs {
+					if ok && (idx == 0) != r {
+						continue
+					}
+					cp := map[ssa.Value]bool{}
+					for kk, vv := range phis {
+						cp[kk] = vv
+					}
+					walk(state{sc, 0, b}, cp, depth+1)
 				}
-				prev = b
-				if r {
-					b = b.Succs[0]
-				} else {
-					b = b.Succs[1]
-				}
-				i = 0
-				moved = true
+				return
 			case *ssa.Jump:
-				prev = b
-				b = b.Succs[0]
-				i = 0
-				moved = true
+				walk(state{b.Succs[0], 0, b}, phis, depth+1)
+				return
 			case *ssa.Return:
-				return consumed, true
+				return
 			}
-			if moved {
-				break
-			}
-		}
-		if !moved {
-			return consumed, true
 		}
 	}
-	return consumed, false
+	walk(state{b, i, nil}, map[ssa.Value]bool{}, 0)
+	return consumed, decided
 }
 
 func checkThrottleGrant(p *core.Program, r *core.Report) {
